@@ -97,10 +97,10 @@ def run_all(p, gaf_key, gfa_key, g, lines, rng_choices, tmp):
         return sorted((k, ordinals(gaf, v)) for k, v in d.items() if k != "ref_contig")
     guard("index", do_index)
     nodes, region = rng_choices
-    guard("view-nodes", lambda: (tool("view", gaf_path=gaf, gfa=gfa, output=out, nodes=nodes), open(out).read())[1])
-    guard("view-region", lambda: (tool("view", gaf_path=gaf, gfa=gfa, output=out, regions=[region]), open(out).read())[1])
-    guard("view-stable", lambda: (tool("view", gaf_path=gaf, gfa=gfa, output=out, format="stable"), open(out).read())[1])
-    guard("view-all", lambda: (tool("view", gaf_path=gaf, output=out), open(out).read())[1])
+    guard("view-nodes", lambda: (tool("view", allow_stdout=True, gaf_path=gaf, gfa=gfa, output=out, nodes=nodes), open(out).read())[1])
+    guard("view-region", lambda: (tool("view", allow_stdout=True, gaf_path=gaf, gfa=gfa, output=out, regions=[region]), open(out).read())[1])
+    guard("view-stable", lambda: (tool("view", allow_stdout=True, gaf_path=gaf, gfa=gfa, output=out, format="stable"), open(out).read())[1])
+    guard("view-all", lambda: (tool("view", allow_stdout=True, gaf_path=gaf, output=out), open(out).read())[1])
 
     def do_sort():
         o = os.path.join(tmp, "s.gaf")
@@ -111,18 +111,19 @@ def run_all(p, gaf_key, gfa_key, g, lines, rng_choices, tmp):
         d = pickle.load(open(o + ".gsi", "rb"))
         return open(o).read(), sorted((k, ordinals(o, v)) for k, v in d.items())
     guard("sort", do_sort)
-    guard("stat", lambda: (tool("stat", gaf_path=gaf, cigar_stat=True, output=out), open(out).read())[1])
+    # the report's figures: blank lines are dropped (one of them is printed to standard output whatever --output says)
+    guard("stat", lambda: (tool("stat", allow_stdout=True, gaf_path=gaf, cigar_stat=True, output=out), [l for l in open(out).read().splitlines() if l.strip()])[1])
 
     def do_phase():
         tsv = os.path.join(tmp, "p.tsv")
         gen.write_text(tsv, "".join("%s\tH%d\t%d\tchr1\n" % (l.split("\t")[0], 1 + i % 2, 100 + i) for i, l in enumerate(lines[::3])))
-        tool("phase", gaf_file=gaf, tsv_file=tsv, output=out)
+        tool("phase", allow_stdout=True, gaf_file=gaf, tsv_file=tsv, output=out)
         return open(out).read()
     guard("phase", do_phase)
     if "fa" in p:
         guard("realign", lambda: (tool("realign", gaf=gaf, graph=gfa, fasta=p["fa"], output=out, cores=1), open(out).read())[1])
     path = lines[0].split("\t")[5]
-    guard("find_path", lambda: (tool("find_path", gfa_path=gfa, input_path=path, output=out, fasta=True), open(out).read())[1])
+    guard("find_path", lambda: (tool("find_path", allow_stdout=True, gfa_path=gfa, input_path=path, output=out, fasta=True), open(out).read())[1])
 
     def do_order():
         od = os.path.join(tmp, "ord")
@@ -142,7 +143,7 @@ def main():
     ck.trusted = ["Lean 4.33.0 kernel", "axioms: propext, Classical.choice, Quot.sound (audited)",
                   "htslib/pysam BGZF reader (tell/seek/readline), zlib/gzip.open: foreign code, assumed to implement the interface (strictly increasing offsets, seek returns the record); checked by this correspondence only"]
     ck.assumptions = ["pysam.libcbgzf.BGZFile and gzip.open return the same bytes as the plain file; tell() before a record is strictly increasing; seek(tell()) returns that record"]
-    ck.canon = ["index / .gsi offsets resolved to record ordinals per file before comparing", "order_gfa outputs keyed by chromosome (the CSV file name differs for a .gfa.gz input: contents compared)"]
+    ck.canon = ["index / .gsi offsets resolved to record ordinals per file before comparing", "stat report compared without blank lines", "order_gfa outputs keyed by chromosome (the CSV file name differs for a .gfa.gz input: contents compared)"]
     ck.lean_build(["Gaftools.Props.C17"])
     ck.audit("C17.lean")
     rng = ck.rng
